@@ -183,17 +183,17 @@ theorem C05_deref_live {s s' : St} {t : Tid} {e : Ev} {n : Nat} (h : Reachable s
     cases hn
     obtain ⟨r0, hr0⟩ := hi.a.wrW t (by simp [hpc, holdsW])
     exact Or.inl (safe_live hi hr0 (hx.e.org t true r0 _ hr0 (by simp [hpc, EView, origOf])))
-  | eMark c orig hpc =>
+  | eMark c orig z hpc =>
     cases hn; rw [hpc] at held; simp only [DView, HeldP, dview_nled] at held; exact Or.inl held.2
-  | eBack c orig o hpc ho =>
+  | eBack c orig z o hpc ho =>
     cases hn; rw [hpc] at held; simp only [DView, HeldP, dview_nled] at held; exact Or.inl held.2
-  | eNext c orig p o hpc ho =>
+  | eNext c orig p z o hpc ho =>
     cases hn; rw [hpc] at held; simp only [DView, HeldP, dview_nled] at held; exact Or.inl held.2
-  | eUnlPrev c orig pp x o hpc ho =>
+  | eUnlPrev c orig pp x z o hpc ho =>
     cases hn
     rw [hpc] at wr; simp only [CView, WriterP, NextIs, cview_lst] at wr
     exact Or.inl (lst_live hi (wdt (by simp [hpc, holdsW])) wr.2.2.2.1.1)
-  | eFixNext c orig p xx o hpc ho =>
+  | eFixNext c orig p xx z o hpc ho =>
     cases hn
     rw [hpc] at wr; simp only [CView, WriterP, NextIs, cview_lst] at wr
     have hxl : n ∈ s.lst := by
@@ -248,9 +248,10 @@ def witness05 : List (Tid × Ev) :=
    (3, .call (.lock true)), (3, .ret (.lock true)), (3, .call .beg), (3, .alo true 2), (3, .conR 2 (some 3) none),
    (3, .ald .zhead .rlx (some 1)), (3, .ast (.rnext 2) .rlx (some 1)), (3, .cas .sc (some 1) (some 2) true (some 1)),
    (3, .ald .head .sc (some 0)), (3, .ret .beg),
-   (3, .call (.erase true)), (3, .mlk), (3, .ald (.nnext 0) .sc (some 1)), (3, .pldDel 0 false), (3, .pstDel 0 true),
+   (3, .call (.erase true)), (3, .mlk), (3, .ald (.nnext 0) .sc (some 1)), (3, .pldDel 0 false),
+   (3, .alo true 3), (3, .conR 3 none (some 0)), (3, .pstDel 0 true),
    (3, .ald (.nback 0) .sc none), (3, .ald (.nnext 0) .sc (some 1)), (3, .ast .head .sc (some 1)), (3, .ast (.nback 1) .sc none),
-   (3, .alo true 3), (3, .conR 3 none (some 0)), (3, .ald .zhead .sc (some 2)), (3, .ast (.rnext 3) .sc (some 2)),
+   (3, .ald .zhead .sc (some 2)), (3, .ast (.rnext 3) .sc (some 2)),
    (3, .cas .sc (some 2) (some 3) true (some 2)), (3, .mul), (3, .ret (.erase true)),
    (3, .call .rel), (3, .ald (.rnext 2) .sc (some 1)), (3, .ald (.rowner 1) .sc (some 2)), (3, .ast (.rowner 2) .sc none),
    (3, .ret .rel),
